@@ -2640,10 +2640,13 @@ class Circuit(AbstractCircuit):
                 within.
         """
         qubits = frozenset(qubits)
-        for k in moment_indices:
-            if 0 <= k < len(self._moments):
-                self._moments[k] = self._moments[k].without_operations_touching(qubits)
-        self._mutated()
+        try:
+            for k in moment_indices:
+                if 0 <= k < len(self._moments):
+                    self._moments[k] = self._moments[k].without_operations_touching(qubits)
+        finally:
+            # Moments edited before a failing `moment_indices` iterator must not leave stale caches.
+            self._mutated()
 
     @property
     def moments(self) -> Sequence[cirq.Moment]:
